@@ -831,8 +831,12 @@ def judge(case):
                     blob = json.dumps(a) + json.dumps(b)
                     if k == 'query' and p.get('l') and op.get('code'):
                         src_lines = op['code'].split('\n')
-                        if 0 < p['l'] <= len(src_lines) and 'zm' in src_lines[p['l'] - 1]:
-                            blob += ' zm_v(probe line mentions the archive module)'
+                        if 0 < p['l'] <= len(src_lines):
+                            ltxt = src_lines[p['l'] - 1]
+                            star = 'from zm import *' in op['code'] and \
+                                ltxt.strip().startswith(('func(', 'Klass', 'VALUE', 'NAM'))
+                            if 'zm' in ltxt or star:
+                                blob += ' zm_v(probe line refers to the archive module)'
                     zipcache = (last_zip_write is not None and
                                 proc_started.get(op.get('proc', 0), i) < last_zip_write and
                                 ('vendor.zip' in blob or 'zm_v' in blob))
